@@ -5,17 +5,36 @@ import os
 
 HERE = os.path.dirname(os.path.dirname(os.path.abspath(__file__)))
 
-CHECKS = {
-    "C20": dict(cat="model_checking", design="5/C20",
-                text="Kmer.tla is model-checked exhaustively (k<=4 quick, k<=5 thorough; all sequences over {A,C,G,T,N} of length k+3): "
-                     "registers are a function of the history alone, canonical/direction/restart laws hold. Every maximal behaviour of the "
-                     "model is replayed on the real Kmer objects with the projected state compared after each step, and recorded executions "
-                     "for every k in 1..32 (random long sequences; all 4^k windows for small k) are validated by TLC against Trace_Kmer.",
-                note="Trusted: TLC, the harness projection u64 -> symbol sequence (+ low-bits-zero flag). Exhaustive only within the stated bounds; k>5 by sampled traces.",
-                technique="TLA+ spec (Kmer.tla) + TLC exhaustive MC; TLC-generated behaviours replayed on the real code; recorded traces validated by TLC (Trace_Kmer.tla)"),
-}
+def load_checks():
+    """Every checks/cNN.py carries its own MANIFEST dict (cat, design, text, note, technique)."""
+    import importlib
+    import sys
+    sys.path.insert(0, HERE)
+    out = {}
+    for f in sorted(os.listdir(os.path.join(HERE, "checks"))):
+        if f.startswith("c") and f.endswith(".py") and f[1:-3].isdigit():
+            mod = importlib.import_module("checks." + f[:-3])
+            if hasattr(mod, "MANIFEST"):
+                out[f[:-3].upper()] = mod.MANIFEST
+    return out
 
-NOT_APPLICABLE = []
+
+CHECKS = load_checks()
+
+# properties deliberately not claimed: id -> reason (kept current by hand)
+NOT_CLAIMED = {}
+
+
+
+def not_applicable():
+    out = []
+    for line in open(os.path.join(HERE, "properties.jsonl")):
+        pid = json.loads(line)["id"]
+        if pid in CHECKS:
+            continue
+        out.append({"property_id": pid, "reason": NOT_CLAIMED.get(
+            pid, "no check registered yet: the specification module and its binding for this property are still under construction (see DESIGN.md section 12)")})
+    return out
 
 
 def main():
@@ -41,7 +60,7 @@ def main():
              "kind_free_text": "Rust conformance harness: replays TLC-generated behaviours on the real crates and records NDJSON traces of real executions"},
         ],
         "checks": [],
-        "not_applicable": NOT_APPLICABLE,
+        "not_applicable": not_applicable(),
         "notes": "All checks: ./check <ID> --tier quick|thorough (cwd /verif). Exit 0 held / 1 VIOLATION / 2 tool error. See DESIGN.md.",
     }
     for pid in sorted(CHECKS):
